@@ -332,12 +332,14 @@ func repoTreeID(repo string) string {
 // validation first when the stored report belongs to another state. Concurrent checks serialise on a lock file.
 func ensureValidation(repo, vd string) map[string]interface{} {
 	dir := filepath.Join(vd, "validation")
-	os.MkdirAll(dir, 0o755)
 	name := "translator_validation.json"
 	if repo != "/repo" {
+		// scratch trees (seeded changes) get their own file outside /verif
 		h := sha256.Sum256([]byte(repo))
-		name = "translator_validation." + hex.EncodeToString(h[:4]) + ".json" // scratch trees (seeded changes) get their own file
+		dir = filepath.Join(os.TempDir(), "symgo-validation")
+		name = "translator_validation." + hex.EncodeToString(h[:4]) + ".json"
 	}
+	os.MkdirAll(dir, 0o755)
 	path := filepath.Join(dir, name)
 	lock, err := os.OpenFile(filepath.Join(dir, ".lock"), os.O_CREATE|os.O_RDWR, 0o644)
 	if err == nil {
